@@ -1,4 +1,5 @@
 import TinyFlux.Audit.Tool
 import TinyFlux.Props.C05
 import TinyFlux.Props.C05State
+import TinyFlux.Props.C05Witness
 #audit TinyFlux.Props.C05
